@@ -479,6 +479,24 @@ func TestC13Variants(t *testing.T) {
 						acceptedVariants++
 						c.Class(fmt.Sprintf("variant-accepted-by-pool:%s/type%d", kind, blk.BlockType))
 						c.NonTrivialItem(fmt.Sprintf("%s/type%d", kind, blk.BlockType))
+						// two blocks with the same hash that a node is willing to accept have identical stored
+						// representation: what the follower holds now is, byte for byte, what the producer holds
+						if pooled, err := n.Chain.GetFrontierAccountStore(blk.Address).ByHash(blk.Hash); err == nil && pooled != nil {
+							orig, _ := h.A.Chain.GetFrontierAccountStore(blk.Address).ByHash(blk.Hash)
+							if orig == nil {
+								orig = blk
+							}
+							x, _ := pooled.Serialize()
+							y, _ := orig.Serialize()
+							if !bytes.Equal(x, y) {
+								key := "C13/second-variant-stored/" + kind
+								if strings.HasPrefix(kind, "changes-hash") && !types.IsEmbeddedAddress(blk.Address) {
+									key = "C13/second-variant-stored/user-block/ChangesHash"
+								}
+								c.Failf(key, "%s was accepted and is stored by the follower with other bytes than the block the producer holds under the same hash: %s",
+									what, firstDiff(normBlock(orig), normBlock(pooled)))
+							}
+						}
 					}
 					idx, err := n.Bridge.InsertChain(h.A.Range(base+1, base+1))
 					if err != nil {
